@@ -108,7 +108,7 @@ func (f *verifNondetFile) Readdir(n int) ([]experimentalsys.Dirent, experimental
 		return nil, e
 	}
 	max := 2
-	if verifrt.Thorough() {
+	if verifDeep {
 		max = 3
 	}
 	k := verifrt.Choose(f.fs.tag("readdir.k"), max)
